@@ -127,11 +127,25 @@ def gen_dataset(rng, kinds=("base", "base", "struct", "grid", "seq"), nvars=None
 
 
 # ------------------------------------------------------------------ building pydap objects
+def memory_layout(a, key):
+    """the same array (same shape, same values) laid out differently in memory: the order of the elements on the wire is the
+    logical (row-major) order, whatever the strides of the array that is served.  Deterministic in `key`."""
+    if a.ndim < 2:
+        return a
+    k = key % 3
+    if k == 1:
+        return np.asfortranarray(a)
+    if k == 2:
+        return np.ascontiguousarray(a.swapaxes(0, 1)).swapaxes(0, 1)     # a view with permuted strides
+    return a
+
+
 def np_array(code, shape, flat):
     if code == "S":
         a = np.array(list(flat), dtype="S") if flat and max(len(s) for s in flat) > 0 else np.array(list(flat), dtype="S1")
-        return a.reshape(shape)
+        return memory_layout(a.reshape(shape), len(flat) + sum(len(s) for s in flat))
     a = np.array(list(flat), dtype=NP[code]).reshape(shape)
+    a = memory_layout(a, len(flat) * 5 + len(str(flat[0])) if flat else 0)
     # stored byte order is not part of the value: big-endian, little-endian and native arrays (netCDF-3 readers and pydap's own
     # client deliver big-endian data) must be served alike.  Deterministic in the values, so that rebuilt datasets agree.
     k = (len(flat) * 7 + sum(len(str(x)) for x in flat[:3]) + len(shape)) % 4
